@@ -144,6 +144,36 @@ def commit_job(arg):
                         rep.violate("commit_type=%r: load(%r) = %r" % (spelling, ap, lv), {"commit_type": spelling, "seq": seq, "alias": True, "dirs": [IDIR, DDIR]}, mechanism="load-wrong-value")
             except BaseException as e:
                 rep.violate("commit_type=%r: one function under two paths: %s: %s" % (spelling, type(e).__name__, str(e)[:150]), {"commit_type": spelling, "seq": seq, "alias": True, "dirs": [IDIR, DDIR]}, mechanism="keep-raised")
+        # a long-lived store object (with and without the object cache) commits a path, another store object on the same
+        # directories re-points it, the first one evaluates its unchanged code again: record, copy and load follow it
+        if ctype != "none":
+            from dds import _api
+
+            for cache in (None, 3, True):
+                try:
+                    pth = "/handles/%s" % ("plain" if cache is None else "cached%s" % cache)
+                    dds.set_store("dbfs", internal_dir="dbfs:/" + IDIR, data_dir="dbfs:/" + DDIR, dbutils=dbu, commit_type=spelling, cache_objects=cache)
+                    first = _api._store()
+                    dds.keep(pth, produce_a, "str_ascii")
+                    dds.set_store("dbfs", internal_dir="dbfs:/" + IDIR, data_dir="dbfs:/" + DDIR, dbutils=dbu, commit_type=spelling, cache_objects=cache)
+                    dds.keep(pth, produce_b, "str_ascii")
+                    dds.set_store(first)
+                    r3 = dds.keep(pth, produce_a, "str_ascii")
+                    rep.count("handle_switches")
+                    want = produce_a("str_ascii")
+                    lv = dds.load(pth)
+                    rec = os.path.join(root, "dbfs", DDIR, "_dds_meta", pth.lstrip("/"))
+                    key = json.load(open(rec))["redirection_key"]
+                    blob = os.path.join(root, "dbfs", IDIR, "blobs", key)
+                    obj = os.path.join(root, "dbfs", DDIR, pth.lstrip("/"))
+                    if r3 != want or lv != want:
+                        rep.violate("commit_type=%r, cache_objects=%r: after another store object re-pointed %s and the first one evaluated its unchanged code again, keep returned %r and load gives %r" % (spelling, cache, pth, r3, lv),
+                                    {"commit_type": spelling, "seq": seq, "dirs": [IDIR, DDIR], "handles": True}, mechanism="path-not-recommitted-by-long-lived-store")
+                    elif ctype == "full" and (not os.path.isfile(obj) or open(obj, "rb").read() != open(blob, "rb").read() or open(obj, "rb").read() != want.encode("utf-8")):
+                        rep.violate("commit_type=%r, cache_objects=%r: the copy of %s under the data directory is not the result that was just kept" % (spelling, cache, pth),
+                                    {"commit_type": spelling, "seq": seq, "dirs": [IDIR, DDIR], "handles": True}, mechanism="path-not-recommitted-by-long-lived-store")
+                except BaseException as e:
+                    rep.violate("commit_type=%r, cache_objects=%r: two store objects on the same directories: %s: %s" % (spelling, cache, type(e).__name__, str(e)[:150]), {"commit_type": spelling, "seq": seq, "dirs": [IDIR, DDIR], "handles": True}, mechanism="keep-raised")
         if len(kept) >= 2:
             rep.nontriv(("commit", spelling, repr(seq)))
     return rep
